@@ -67,9 +67,11 @@ def check_function(res: Result, name: str, fn_ast: L.Fn, allf, compiled: dict, w
     bad = None
     for p in paths:
         o = p.outcome
-        if o[0] == "undecided" or p.approx:
+        if o[0] == "undecided":
             n_und += 1
             continue
+        # paths of unsettled feasibility (`approx`) are checked like the others: an infeasible path adds nothing to a
+        # universally quantified statement and a `sat` answer comes with a model that is replayed natively
         s = z3.SimpleSolver()
         s.set("timeout", 15000)
         s.add(*p.pc)
